@@ -22,6 +22,7 @@ try:
     import beartype._util.cache.pool.utilcachepoolinstance  # noqa: E402,F401
     import beartype._util.cache.pool.utilcachepoollistfixed  # noqa: E402,F401
     import beartype._check.error.errmain  # noqa: E402,F401
+    sched.import_lock_users()
 finally:
     sched.restore_real_locks()
 
